@@ -496,9 +496,10 @@ class RecipeGen:
         if k == "mcall":
             self.need(6)
             u64 = sc.abis_of(["uint64"])
+            extra = r.sample(["fee", "note", "oc", "rekey", "accounts"], r.choice([0, 0, 1, 2, 3, 4]))
             if len(u64) >= 2 and r.random() < 0.6:
-                return ["mcall", "add(uint64,uint64)uint64", [["abiref", r.choice(u64)], ["abiref", r.choice(u64)]]]
-            return ["mcall", "f()void", []]
+                return ["mcall", "add(uint64,uint64)uint64", [["abiref", r.choice(u64)], ["abiref", r.choice(u64)]], extra]
+            return ["mcall", "f()void", [], extra]
         if k == "pragma":
             return ["pragma", r.choice([">=0.20.0", "<1.0.0", ">=0.26.0"]), self.stmt(sc, d + 1)]
         if k == "pop":
